@@ -511,7 +511,7 @@ def e2e_worker(case):
         out["planted_has_insertion"] = "ins" in kinds_planted
         out["planted_has_deletion"] = "del" in kinds_planted
         L, step = case["L_step"]
-        res, genes, calls = {}, {}, {}
+        res, genes, calls, bams, profs = {}, {}, {}, {}, {}
         for build in ("hg19", "hg38"):
             bd = os.path.join(d, build)
             os.makedirs(bd)
@@ -532,11 +532,30 @@ def e2e_worker(case):
                 except AldyException as e:
                     return "error: " + str(e).split("\n")[0][:100]
             calls[build] = call
+            bams[build], profs[build] = bam, prof
             res[build] = call(bool(case.get("phase", True)))
         out["equal_with_phase_off"] = None
         if case.get("phase", True) and compare(res["hg19"], res["hg38"]):
             # is the phase term the only thing that differs?  (observed fact about this input, recorded in the description)
             out["equal_with_phase_off"] = not compare(calls["hg19"](False), calls["hg38"](False))
+        # when the two builds disagree: is it already the EVIDENCE the loader builds that differs (support of the catalogued variants
+        # and the indel table, expressed through the RefSeq descriptions aldy stores), or do the stages differ on equal evidence?
+        out["evidence_equal"] = None
+        if compare(res["hg19"], res["hg38"]):
+            try:
+                from aldy.sam import Sample
+                from aldy.profile import Profile
+                from aldy.gene import Mutation as _M
+                ev = {}
+                for build in ("hg19", "hg38"):
+                    g = genes[build]
+                    kw = simreads.genotype_kwargs(desc, build, profs[build])
+                    P = Profile.load(g, kw["profile_name"], kw.get("cn_region"), phase=False, indelpost=bool(case.get("indelpost", True)))
+                    smp = Sample(g, P, bams[build])
+                    ev[build] = {str((v[3], v[4])): [int(smp.coverage.coverage(_M(*m))), int(smp.coverage.total(_M(*m)))] for m, v in g.mutations.items()}
+                out["evidence_equal"] = ev["hg19"] == ev["hg38"]
+            except Exception:   # noqa
+                out["evidence_equal"] = None
         pairs, only_one = transport_pairs(genes["hg19"], genes["hg38"])
         inj, sp = py_hypotheses(pairs)
         # observed fact about the vendored realigner (aldy/indelpost, DESIGN.md 8.4): its reference count for an indel changes when the
@@ -632,6 +651,7 @@ def generated_stream(chk, n, timeout_s):
             chk.fail(cl, {"db": "generated", "strands": strands, "phase": bool(c.get("phase", True)), "indelpost": bool(c.get("indelpost", True)),
                           "planted_has_insertion": r["planted_has_insertion"], "planted_has_deletion": r["planted_has_deletion"],
                           "planted_same_site_sub_and_del": r["planted_same_site"], "planted_site_merge_differs": r["planted_site_merge_differs"],
+                          "evidence_equal": r.get("evidence_equal"),
                           "indel_after_power_of_ten_in_one_build": r["indel_after_power_of_ten"][0] != r["indel_after_power_of_ten"][1], "equal_with_phase_off": r.get("equal_with_phase_off"), "site_preserving": r["sp"], "same_site_sub_and_del": r["same_site"],
                           "friendly": c["friendly"], "evidence": c.get("evidence"), "difference": classify(ra, rb, diffs)},
                      dict(c, alleles=r["alleles"]), "equal in both builds", txt)
